@@ -192,9 +192,19 @@ func (s *ReverseSuffixSearcher) Find(haystack []byte) *Match {
 	// For matchStartZero (unanchored .* prefix), match starts at the beginning
 	// of the line containing the LAST suffix — .* (AnyCharNotNL) cannot cross \n.
 	if s.matchStartZero {
-		// Leftmost match: the FIRST line that contains the suffix, up to the
-		// last occurrence on that line (FindAt implements exactly this).
-		return s.FindAt(haystack, 0)
+		// Leftmost match: the FIRST line that contains the suffix, from its
+		// start up to the LAST occurrence on that line (greedy .*).
+		firstPos := bytes.Index(haystack, s.suffixBytes)
+		if firstPos == -1 {
+			return nil
+		}
+		matchStart := lineStartBefore(haystack, 0, firstPos)
+		lineEnd := len(haystack)
+		if nl := bytes.IndexByte(haystack[firstPos:], '\n'); nl >= 0 {
+			lineEnd = firstPos + nl
+		}
+		lastPos := matchStart + bytes.LastIndex(haystack[matchStart:lineEnd], s.suffixBytes)
+		return NewMatch(matchStart, lastPos+s.suffixLen, haystack)
 	}
 
 	// For bounded wildcards (e.g., \d+\.\d+\.35), find the FIRST suffix
